@@ -52,6 +52,7 @@ type HistorySetup struct {
 	StartHeight   int64     `json:"start_height,omitempty"`
 	ViaApp        bool      `json:"end_block_via_module_manager,omitempty"`
 	KillOthers    bool      `json:"state_callback_kills_others,omitempty"`
+	RespKill      bool      `json:"response_callback_kills_others,omitempty"`
 	Ghost         bool      `json:"ghost_module_context,omitempty"`
 	HostileHashes bool      `json:"structured_tx_hashes,omitempty"`
 	BigFunds      []FundRec `json:"big_funds,omitempty"` // amounts beyond int64, funded before the first snapshot
@@ -76,16 +77,16 @@ type Violation struct {
 }
 
 type Run struct {
-	w        *World
-	hist     *History
-	pre      *Snap
-	mon      *Mon
-	rng      *rand.Rand
-	stop     bool
-	lastRes  StepResult
-	digests  []string
+	w                *World
+	hist             *History
+	pre              *Snap
+	mon              *Mon
+	rng              *rand.Rand
+	stop             bool
+	lastRes          StepResult
+	digests          []string
 	nodeRestartsSeen int
-	maxSteps int
+	maxSteps         int
 }
 
 func encodeMsg(msg sdk.Msg) (string, string) {
@@ -242,6 +243,11 @@ func (r *Run) InstallModuleServiceQoS(pricing string, qos uint64) {
 func (r *Run) SetHostileHashes(v bool) {
 	r.w.hostileHashes = v
 	r.hist.Setup.HostileHashes = v
+}
+
+func (r *Run) SetRespKillOthers(v bool) {
+	r.w.respCbKillOthers = v
+	r.hist.Setup.RespKill = v
 }
 
 func (r *Run) SetKillOthers(v bool) {
@@ -424,6 +430,22 @@ func (r *Run) ChangeParams(p types.Params) StepResult {
 	return res
 }
 
+// Probe runs the sampled scenario monitors (genesis scenario, query differential) on the
+// current state, wherever the sampling period would have put them. It is not a step: it
+// works on throw-away branches and leaves the history as it is.
+func (r *Run) Probe() {
+	if expired() || len(r.hist.Steps) == 0 {
+		return
+	}
+	sc := &StepCtx{Idx: len(r.hist.Steps) - 1, Step: &r.hist.Steps[len(r.hist.Steps)-1], Res: &StepResult{OK: true}, Pre: r.pre, Post: r.pre, run: r}
+	if r.mon.c19 != nil {
+		r.mon.c19.scenario(sc)
+	}
+	if r.mon.c17 != nil {
+		r.mon.c17.sample(sc)
+	}
+}
+
 func (r *Run) SetModSvcBehaviour(b ModSvcBehaviour) {
 	r.w.modSvcBehaviour = b
 	r.hist.Steps = append(r.hist.Steps, Step{Kind: "modsvc", Behaviour: int(b), Desc: fmt.Sprintf("module service answers in mode %d", b)})
@@ -471,6 +493,7 @@ func Replay(a *App, h *History, mon *Mon) *Run {
 	r.SetStateCbKill(h.Setup.StateCbKill)
 	r.SetViaApp(h.Setup.ViaApp)
 	r.SetKillOthers(h.Setup.KillOthers)
+	r.SetRespKillOthers(h.Setup.RespKill)
 	r.SetHostileHashes(h.Setup.HostileHashes)
 	if h.Setup.StartTimeNs != 0 {
 		r.SetStartTime(time.Unix(0, h.Setup.StartTimeNs).UTC())
